@@ -191,3 +191,71 @@ package bitmask
 //@   decreases ite(int(bit/64) < len(bm.mask), len(bm.mask) - int(bit/64), 0)
 //@   ensures forall(k, 0, inf, W(bm.mask, k) == ite(k < int(bit/64), old(W(bm.mask, k)), ite(k == int(bit/64), injw(old(W(bm.mask, k)), bit%64, value), (old(W(bm.mask, k)) << 1) | (old(W(bm.mask, k-1)) >> 63))))
 //@   ensures len(bm.mask) >= old(len(bm.mask))
+
+// ---------------------------------------------------------------------------
+// ConnectedBitmask: a sorted list of disjoint, non-adjacent, non-empty runs.
+// mem(e,b): bit b is in the set. wf(e): canonical form (Equal is structural, so
+// the canonical form is observable). lim(e): every bit index is below 2^62, so
+// that max+1 and Len() cannot wrap (precondition of every operation; Inject
+// needs one more bit of head room, see there).
+// ---------------------------------------------------------------------------
+//@ pure mem(e []connectedBitmaskEntry, b uint) bool = exists(i, 0, len(e), e[i].min <= b && b <= e[i].max)
+//@ pure wf(e []connectedBitmaskEntry) bool = forall(i, 0, len(e), e[i].min <= e[i].max && e[i].max < 4611686018427387904) && \
+//@     forall(i, 0, len(e), forall(j, i+1, len(e), e[i].max + 1 < e[j].min))
+
+//@ func MakeConnectedBitmask
+//@   requires min <= max && max < 4611686018427387904
+//@   ensures wf(result.entries)
+//@   ensures forall(uint, b, 0, inf, mem(result.entries, b) == (min <= b && b <= max))
+
+//@ func (ConnectedBitmask).IsSet
+//@   requires wf(bm.entries)
+//@   ensures result == mem(bm.entries, bit)
+//@   loop 1 invariant -1 <= rangeindex && rangeindex < len(bm.entries)
+//@   loop 1 invariant forall(k, 0, rangeindex+1, bm.entries[k].max < bit)
+//@   loop 1 decreases len(bm.entries) - rangeindex
+
+//@ func (ConnectedBitmask).Len
+//@   requires wf(bm.entries)
+//@   ensures forall(uint, b, 0, inf, implies(mem(bm.entries, b), int(b) < result))
+//@   ensures result == 0 || mem(bm.entries, uint(result-1))
+//@   ensures result >= 0
+
+//@ func (ConnectedBitmask).IsZero
+//@   requires wf(bm.entries)
+//@   ensures result == forall(uint, b, 0, inf, !mem(bm.entries, b))
+
+//@ func (ConnectedBitmask).Copy
+//@   ensures seq_eq(result.entries, bm.entries)
+
+//@ func (ConnectedBitmask).Equal
+//@   ensures result == seq_eq(bm.entries, other.entries)
+//@   loop 1 invariant 0 <= i && i <= l && l == len(bm.entries) && l == len(other.entries)
+//@   loop 1 invariant forall(k, 0, i, bm.entries[k] == other.entries[k])
+//@   loop 1 decreases l - i
+
+//@ func (*ConnectedBitmask).Set
+//@   requires wf(bm.entries) && bit < 4611686018427387904
+//@   modifies bm.entries
+//@   ensures wf(bm.entries)
+//@   ensures forall(uint, b, 0, inf, mem(bm.entries, b) == (old(mem(bm.entries, b)) || b == bit))
+//@   loop 1 invariant -1 <= rangeindex && rangeindex < len(bm.entries)
+//@   loop 1 invariant same_slice(bm.entries, old(bm.entries)) && seq_eq(bm.entries, old(bm.entries))
+//@   loop 1 invariant forall(k, 0, rangeindex+1, bm.entries[k].max + 1 < bit)
+//@   loop 1 decreases len(bm.entries) - rangeindex
+
+//@ func (*ConnectedBitmask).Unset
+//@   requires wf(bm.entries)
+//@   modifies bm.entries
+//@   ensures wf(bm.entries)
+//@   ensures forall(uint, b, 0, inf, mem(bm.entries, b) == (old(mem(bm.entries, b)) && b != bit))
+//@   loop 1 invariant -1 <= rangeindex && rangeindex < len(bm.entries)
+//@   loop 1 invariant same_slice(bm.entries, old(bm.entries)) && seq_eq(bm.entries, old(bm.entries))
+//@   loop 1 invariant forall(k, 0, rangeindex+1, bm.entries[k].max < bit)
+//@   loop 1 decreases len(bm.entries) - rangeindex
+
+//@ func (*ConnectedBitmask).Flip
+//@   requires wf(bm.entries) && bit < 4611686018427387904
+//@   modifies bm.entries
+//@   ensures wf(bm.entries)
+//@   ensures forall(uint, b, 0, inf, mem(bm.entries, b) == (old(mem(bm.entries, b)) != (b == bit)))
